@@ -46,7 +46,7 @@ def plan(tier, seed):
     cfgs += [gen.random_custom_cfg(rng, rng.choice((2, 3, 3, 4))) for _ in range(10 if tier == 'quick' else 60)]
     if tier == 'thorough':
         cfgs += gen.pqr_all(1, 4)[::2] + [dict(c, opts={'graded': True}) for c in gen.pqr_all(2, 4)[::3]]
-    per = 16 if tier == 'quick' else 500
+    per = 50 if tier == 'quick' else 500
     U = [{'cfg': c, 'per_form': per} for c in cfgs]
     rng.shuffle(U)
     return [{'units': part} for part in gen.split(U, 16 if tier == 'quick' else 64)]
